@@ -132,7 +132,10 @@ def predict_case(cid, rng, big, edited=False):
     return c
 
 
-def ridge_case(cid, rng):
+def ridge_case(cid, rng, via="fit_numpy"):
+    """via: fit_numpy | fit_ndarray | fit_bvmat_centred (from_numpy: location = column mean) | fit_bvmat_raw (stored values
+    with location 0 / scale 1) | fit_bvmat_ref (stored values relative to a user-supplied reference location and scale);
+    in every form the training data are the UNSCALED values y and the intercept must be their mean"""
     from pybrops.model.gmod.rrBLUPModel0 import rrBLUPModel0
     n = rng.randrange(3, 9); p = rng.randrange(1, 4) if rng.random() < 0.7 else rng.randrange(4, 12)
     Z = np.array([[rng.randrange(3) for _ in range(p)] for _ in range(n)])
@@ -143,10 +146,29 @@ def ridge_case(cid, rng):
     y = np.array([rng.randrange(-5, 15) for _ in range(n)])
     if np.all(y == y[0]):
         y[0] += 3
-    c = {"id": cid, "kind": "ridge", "Z": Z.tolist(), "y": y.tolist(), "err": None, "float_checks": []}
+    c = {"id": cid, "kind": "ridge", "Z": Z.tolist(), "y": y.tolist(), "err": None, "float_checks": [], "via": via}
     try:
         with time_limit(120), np.errstate(all="ignore"):
-            m = rrBLUPModel0.fit_numpy(y.astype(float)[:, None], np.ones((n, 1)), Z.astype(float))
+            if via == "fit_numpy":
+                m = rrBLUPModel0.fit_numpy(y.astype(float)[:, None], np.ones((n, 1)), Z.astype(float))
+            elif via == "fit_ndarray":
+                m = rrBLUPModel0.fit(y.astype(float)[:, None], np.ones((n, 1)), Z.astype(float))
+            else:
+                from pybrops.popgen.bvmat.DenseBreedingValueMatrix import DenseBreedingValueMatrix
+                taxa = np.array(["t%d" % k for k in range(n)], dtype=object)
+                if via == "fit_bvmat_centred":
+                    bv = DenseBreedingValueMatrix.from_numpy(y.astype(float)[:, None], taxa=taxa, trait=np.array(["y"], dtype=object))
+                elif via == "fit_bvmat_raw":
+                    bv = DenseBreedingValueMatrix(mat=y.astype(float)[:, None], location=0.0, scale=1.0, taxa=taxa,
+                                                  trait=np.array(["y"], dtype=object))
+                else:
+                    loc = float(rng.randrange(-6, 7)); sc = float(rng.choice([1, 2, 4]))      # exact in binary
+                    bv = DenseBreedingValueMatrix(mat=(y.astype(float)[:, None] - loc) / sc, location=np.array([loc]),
+                                                  scale=np.array([sc]), taxa=taxa, trait=np.array(["y"], dtype=object))
+                    c["ref"] = [loc, sc]
+                if not np.allclose(np.asarray(bv.unscale(), float)[:, 0], y.astype(float), rtol=0, atol=1e-9):
+                    raise RuntimeError("harness: unscale() of the constructed matrix is not y")
+                m = rrBLUPModel0.fit(bv, np.ones((n, 1)), Z.astype(float))
             ua = np.asarray(m.u_a, dtype=float)[:, 0]; beta = float(np.asarray(m.beta).ravel()[0])
             bn = beta * n
             c["ymeanN"] = int(round(bn)) if abs(bn - round(bn)) < 1e-6 else -10 ** 9
@@ -203,18 +225,21 @@ def run(ctx):
         allc.append(predict_case(len(allc) + 1, rng, big=rng.random() < 0.5, edited=True))
     for _ in range(60 if thorough else 20):
         allc.append(ridge_case(len(allc) + 1, rng))
+    vias = ("fit_ndarray", "fit_bvmat_centred", "fit_bvmat_raw", "fit_bvmat_ref")
+    for k in range(48 if thorough else 16):
+        allc.append(ridge_case(len(allc) + 1, rng, via=vias[k % 4]))
     verd = cases.validate(ctx, "LinModel_Trace", "LinModel_Trace.cfg",
-                          [{k: v for k, v in c.items() if k not in ("float_checks", "dom", "q", "edited")} for c in allc],
+                          [{k: v for k, v in c.items() if k not in ("float_checks", "dom", "q", "edited", "via", "ref")} for c in allc],
                           "LinModel_Trace", chunk=20, procs=14)
     ctx.traces += len(allc)
     for c in allc:
         v = verd[c["id"]]
         ctx.count(1, repr((c["kind"], c["Z"], c.get("u"), c.get("y"))) if len(c["Z"]) >= 2 else None)
-        site = ("DenseAdditiveDominanceLinearGenomicModel" if c.get("dom") else "DenseAdditiveLinearGenomicModel") if c["kind"] == "predict" else "rrBLUPModel0.fit_numpy"
+        site = ("DenseAdditiveDominanceLinearGenomicModel" if c.get("dom") else "DenseAdditiveLinearGenomicModel") if c["kind"] == "predict" else "rrBLUPModel0." + c.get("via", "fit_numpy")
         if v != "ok":
             ctx.violation("%s:%s%s" % (site, v, ":after-in-place-edit-of-effects" if c.get("edited") else ""),
                           "TLC verdict %s%s%s" % (v, " (model used, then beta/u_a/u_d overwritten in place)" if c.get("edited") else "", " -- " + c["err"] if c["err"] else ""),
-                          {k: c[k] for k in c if k in ("Z", "u", "d", "b", "q", "y", "gebv", "gegv", "varA", "vara", "err", "uzero", "ymeanN")})
+                          {k: c[k] for k in c if k in ("Z", "u", "d", "b", "q", "y", "gebv", "gegv", "varA", "vara", "err", "uzero", "ymeanN", "via", "ref")})
         for fc in c.get("float_checks", []):
             ctx.violation("%s:%s" % (site, fc.split(":")[0]), fc, {"Z": c["Z"], "y": c["y"]})
     ctx.sample({k: allc[0][k] for k in ("Z", "u", "d", "b", "gebv", "gegv", "varA", "vara", "fa")} | {"verdict": verd[allc[0]["id"]]})
